@@ -58,6 +58,7 @@ func main() {
 		selftest = flag.Bool("selftest", false, "run all witness mutants and benign variants")
 		explain  = flag.String("explain", "", "replay file to explain")
 		dump     = flag.String("dump", "", "print SSA of the named function")
+		genfp    = flag.Bool("genfingerprints", false, "print the structural fingerprints of the tree's functions (reference for rename resolution)")
 		genprot  = flag.Bool("genprotected", false, "print the list of functions of the tree (reference names never inlined)")
 		inl      = flag.Bool("inline", false, "with -dump/-list: use the helper-inlined program")
 		list     = flag.Bool("list", false, "list functions")
@@ -82,6 +83,9 @@ func main() {
 
 	if *genprot {
 		os.Exit(genProtected(*repo))
+	}
+	if *genfp {
+		os.Exit(genFingerprints(*repo))
 	}
 	if *dump != "" || *list {
 		w, err := Load(LoadConfig{Dir: *repo, Inline: *inl})
@@ -147,6 +151,7 @@ func main() {
 		"files":              w.Files,
 		"package_functions":  len(w.Funcs),
 		"configurations":     []string{"default"},
+		"renamed_functions":  w.Renamed,
 		"ssa_normalisations": fmt.Sprintf("%d join-and-return / constant-branch blocks folded back into their predecessors (splitret.go), each function re-checked by go/ssa's sanity checker", w.SplitReturns),
 	}
 	r.Extra["analysed"] = analysed
